@@ -284,7 +284,7 @@ Section Dec.
     if oend <? 0 then (-1, m0, true) else
     if oend =? 0 then
       if partial then (0, m0, true)
-      else if iend =? 1 then ((if get srcm 0 =? 0 then 0 else -1), m0, true)
+      else if iend =? 1 then ((if get srcm 0 / 2 ^ ML_BITS =? 0 then 0 else -1), m0, true)
       else (-1, m0, true)
     else if iend =? 0 then (-1, m0, true) else
     let fast := fastloop && negb (oend <? FASTLOOP_SAFE_DISTANCE) in
